@@ -15,4 +15,8 @@ SmallPrograms ==
           Pg("void", "join", 1, << <<S("co", 2), S("ret", 0)>>, <<S("aw", 1), S("thr", 0)>> >>) >>
     \o [i \in 1..8 |-> Pg("int", "detach", 1,
                           << <<S(<<"co", "da", "dd", "st", "fc", "rf", "pa", "pd">>[i], 2), S("ret", 0)>>, Leaf >>)]
+    \* tracked result type: every co_return form under join / start / co_await / detach
+    \o [i \in 1..3 |-> Pg("trk", "join", 1, << <<S("aw", 1), S("ret", i - 1)>> >>)]
+    \o [i \in 1..3 |-> Pg("trk", "start", 0, << <<S("co", 2), S("ret", i - 1)>>, <<S("ret", i - 1)>> >>)]
+    \o [i \in 1..3 |-> Pg("trk", "detach", 0, << <<S("ret", i - 1)>> >>)]
 =============================================================================
